@@ -510,6 +510,9 @@ func (c *FuncCtx) specBuiltin(st *State, name string, x *ast.CallExpr) ([]*Val, 
 		st.guard = append(st.guard, l.S)
 		r := c.eval(st, x.Args[1])
 		st.guard = st.guard[:len(st.guard)-1]
+		if r.SA != "" {
+			return []*Val{{T: tBool, S: mkImplies(l.S, r.S), SA: mkImplies(l.S, r.SA), Sort: "Bool"}}, true
+		}
 		return b(mkImplies(l.S, r.S)), true
 	case "iff":
 		l := c.eval(st, x.Args[0])
@@ -657,7 +660,7 @@ func (c *FuncCtx) specBuiltin(st *State, name string, x *ast.CallExpr) ([]*Val, 
 		g0 := st.guard
 		st.guard = nil
 		v := c.eval(st, fa.Expr)
-		st.assume(v.S)
+		st.assume(v.forAssume())
 		st.guard = g0
 		st.bound = saved
 		return b(tTrue), true
@@ -901,6 +904,13 @@ func (c *FuncCtx) quant(st *State, kind string, x *ast.CallExpr) *Val {
 	srt := c.eng.sortOf(vt)
 	if kind == "forall" {
 		t = fmt.Sprintf("(forall ((%s %s)) %s)", bv, srt, mkImplies(mkAnd(append([]string{rng}, inner...)...), p.S))
+		if len(inner) > 0 || p.SA != "" {
+			// assumed form: the side facts are true of every value, so they are
+			// conjuncts, not hypotheses a solver could falsify to make an
+			// instance vacuous
+			sa := fmt.Sprintf("(forall ((%s %s)) %s)", bv, srt, mkImplies(rng, mkAnd(append(append([]string{}, inner...), p.forAssume())...)))
+			return &Val{T: tBool, S: t, SA: sa, Sort: "Bool"}
+		}
 	} else {
 		t = fmt.Sprintf("(exists ((%s %s)) %s)", bv, srt, mkAnd(append(append([]string{rng}, inner...), p.S)...))
 	}
@@ -1241,6 +1251,7 @@ func (c *FuncCtx) applyContract(st *State, con *Contract, sig *types.Signature, 
 	st.old = pre
 	// lets and preconditions, in file order (pre-state)
 	nreq := 0
+	var specPre []string
 	for _, cl := range con.Clauses {
 		switch cl.Kind {
 		case "let":
@@ -1249,12 +1260,15 @@ func (c *FuncCtx) applyContract(st *State, con *Contract, sig *types.Signature, 
 			nreq++
 			v := c.eval(st, cl.Expr)
 			if specCall {
-				continue // specifications are total: no obligation, no assumption
+				// specifications are total: no obligation; the postconditions
+				// are only known to hold where the precondition does
+				specPre = append(specPre, v.S)
+				continue
 			}
 			delete(st.bound, "$spec")
 			c.oblige(st, "pre", fmt.Sprintf("call@%s.%s.pre%d", c.anchor(pos), key, nreq), pos, v.S, nil, "requires "+cl.Text)
 			st.bound["$spec"] = &Val{S: "1"}
-			st.assume(v.S)
+			st.assume(v.forAssume())
 		}
 	}
 	// ghost trace of this call (a function's calls of itself are not recorded:
@@ -1400,7 +1414,11 @@ func (c *FuncCtx) applyContract(st *State, con *Contract, sig *types.Signature, 
 	}
 	for _, cl := range con.clauses("ensures") {
 		v := c.eval(st, cl.Expr)
-		st.assume(c.skolemize(v.S))
+		if len(specPre) > 0 {
+			st.assume(mkImplies(mkAnd(specPre...), v.forAssume()))
+			continue
+		}
+		st.assume(c.skolemize(v.forAssume()))
 	}
 	if len(con.clauses("like")) > 0 {
 		env := map[string]*Val{}
